@@ -25,12 +25,12 @@ CHECKS = {
             'Generated and enumerated grammar strings with node and unit multipliers are read and compared (isomorphism '
             'on names, annotation attributes, bond orders; identical numbering for node multipliers) with the reading of '
             'the longhand string produced on the AST; the longhand reading must equal the reference interpreter. Open '
-            'findings F19-F26 of the branch expansion are excluded by feature and reported as KNOWN-FINDING.',
+            'findings F19-F26 of the branch expansion are excluded by feature and reported as KNOWN-FINDING. Includes multiplied nodes that anchor branches or units, exhaustive small units, and an atheris campaign in the thorough tier.',
             '4/C05', 'Unit shapes with a listed open finding are excluded from generation (counted in evidence). '),
     'C20': ('fault injection over generated valid strings: one fault at every admissible position, expected exception type as oracle',
             'Each generated valid string gets one injected fault type at every position where it can be placed; every '
             'faulty string must raise the documented exception type (never return a graph); the fault-free string must '
-            'be accepted; the reference interpreter independently confirms invalidity of the faulty base graph.',
+            'be accepted; the reference interpreter independently confirms invalidity of the faulty base graph; faults are also injected into coarse fragment definitions and faulty base graphs are also handed to from_graph with shuffled insertion order.',
             '4/C20', ''),
     'C01': ('property-based testing: model-by-construction (molecule x partition x rendering) vs resolved graph, plus metamorphic twin (uncut molecule, from_graph constructor)',
             'A molecule model is generated first, cut at random, every cut written as a uniquely labelled descriptor pair, '
@@ -47,7 +47,7 @@ CHECKS = {
             'After every resolve() step of generated strings (dedicated-pair molecules, multi-level strings, ambiguous '
             'fragment sets) the mapping invariants are evaluated: fragid within coarse keys, graph attribute equals '
             'the fragid members, cover, bijection of mapped nodes with the template (names/elements, bonds, orders, '
-            'annotations), fragname on every member.',
+            'annotations), fragname on every member; generator-side annotations are compared independently of the template reader; every case is resolved again through from_graph with other node keys and shuffled insertion order, and through one of the three constructors drawn per case.',
             '4/C02', 'Templates are taken from cgsmiles\' own fragment reader. '),
     'C03': ('property-based testing: invariant over output + templates with an independent re-statement of the matching rule and exact descriptor-assignment search',
             'For generated ambiguous and dedicated fragment sets under both conventions every inter-fragment bond must '
@@ -58,12 +58,12 @@ CHECKS = {
     'C06': ('property-based testing: metamorphic relation n-level vs 2-level vs model, step invariants, three drivers differential',
             'Multi-level strings built by repeatedly grouping a cut molecule; final result isomorphic to the model and '
             'to the two-level string; coarse graph of each step is the previous fine graph; C02/C03 invariants at '
-            'every step; resolve() x k, resolve_iter() and resolve_all() give equal dumps.',
+            'every step; resolve() x k, resolve_iter() and resolve_all() give equal dumps. Levels include shared (!) nodes, virtual nodes and order-0 edges inside fragments, descriptors after closed branches, fragment names reused across levels, shared atoms at the atomistic level, coarse last level.',
             '4/C06', ''),
     'C09': ('property-based testing: per-atom valence invariant with an independent valence table on generated all-atom outputs',
             'Every all-atom result of generated strings (dedicated, multi-level, ambiguous with surplus descriptors, '
             'explicit hydrogens) is checked atom by atom: hydrogens == smallest fitting usual valence - heavy bond sum; '
-            'hydrogens have one neighbour and inherit fragid/fragname/weight; explicit hydrogens kept.',
+            'hydrogens have one neighbour and inherit fragid/fragname/weight (also weight 0); explicit hydrogens (also as first atom, also as fragments capping aromatic atoms) kept; all-atom sampler outputs included; a public helper (compute_mass on a plain molecule) may run before the case.',
             '4/C09', 'Sampler outputs are checked by C16 with the same invariant. '),
     'C12': ('property-based testing: numbering invariants, metamorphic permutations / constructors differential, Hypothesis stateful machine over shared libraries, sub-process PYTHONHASHSEED differential',
             'Numbering clauses on every step; equal canonical dumps for repeated calls, permuted fragment definitions '
@@ -84,12 +84,12 @@ CHECKS = {
     'C10': ('property-based testing: model-by-construction with shared atoms vs resolved graph, metamorphic twin (disjoint description), atom-count and membership invariants',
             'The C01 construction with a random subset of cut bonds replaced by shared atoms (copies with [!x] in both '
             'fragments); result isomorphic to the model and to the disjoint description, heavy atoms = fragment atoms - '
-            'shared pairs, merged atoms belong to both coarse nodes.',
+            'shared pairs, merged atoms belong to both coarse nodes; ordinary descriptors may sit on any copy of a shared atom, fragments may overlap in a bond, sharing on several levels of one resolver, label-insensitive convention where unambiguous.',
             '4/C10', ''),
     'C11': ('property-based testing: metamorphic relation with/without virtual nodes and order-0 edges, membership invariant, fault twin (bonded virtual node must raise)',
             'A resolvable string is decorated with fragment-less nodes attached by order-0 edges (any position, several, '
             'ring bonds) and order-0 edges between real nodes; molecule and per-node membership must be unchanged, for '
-            'from_string and for from_graph with shuffled node order; the twin with a bonded virtual node must raise SyntaxError.',
+            'from_string and for from_graph with shuffled node order and for a base-graph object resolved before with another fragment set; virtual nodes also inside fragments of intermediate levels; the twin with a bonded virtual node must raise SyntaxError.',
             '4/C11', ''),
     'C08': ('property-based testing: round trip read -> write -> read (fragments) and resolve -> write -> resolve (complete strings) with isomorphism oracle',
             'Generated atomistic and coarse fragment sets with arbitrary descriptor lists are read, written by '
@@ -101,18 +101,18 @@ CHECKS = {
             'Molecules are built around stereo double bonds with drawn cis/trans truth and chirality labels; slash '
             'marks are derived by the OpenSMILES rule from the writing direction of the own renderer; four variants '
             '(uncut, three partitions incl. cuts at the double bond, random base-graph order) must all annotate the '
-            'truth on the right atoms; stored references must be real paths.',
+            'truth on the right atoms; stored references must be real paths. Includes skipped and conjugated dienes, explicit hydrogens as marked substituents and redundant second marks, restricted to renderings in which the one-mark-per-atom reader keeps the relevant mark.',
             '4/C15', ''),
     'C18': ('property-based testing: round trip through RDKit vs model, geometric predicate after embedding, weighted-average and translation-equivariance (metamorphic) oracles',
             'RDKit-sane generated molecules (resolved, permuted node order, shared atoms, weights): conversion round '
             'trip with and without conformer vs the model, an independent RDKit construction decides acceptability; '
             'embedded coordinates must put bonded atoms at bonding distance; forward mapping must equal the weighted '
-            'average of exactly the member atoms and commute with translations.',
+            'average of exactly the member atoms (weights incl. 0) and commute with translations; mixtures of two unbonded molecules and the combined entry point embedd_cg_molecule_via_rdkit included.',
             '4/C18', 'RDKit embedding is stochastic; failures to embed are inconclusive. '),
     'C19': ('property-based testing: postcondition oracle on generated graphs and their relabelled copies (metamorphic relabelling)',
             'Generated connected graphs and resolved molecules are laid out with drawn bond lengths and numpy seeds, '
             'as is and relabelled; positions must cover exactly the nodes, be finite 2-vectors, keep bonded nodes '
-            'apart and have mean bond length equal to the requested one.',
+            'apart and have mean bond length equal to the requested one; edge orders incl. 0, long chains up to 130 nodes, align_with option.',
             '4/C19', ''),
     'C16': ('property-based testing: generated sampler configurations, invariant over the output and the reconstructed growth history (model of open descriptors)',
             'Sampler configurations are generated (fragments, descriptors, reactivity / conditional tables, terminal sets, '
